@@ -929,6 +929,11 @@ def probe_ties(R: Runner, rng):
         lo, scale = oracle_value(case)  # left-continuous choice theta[#{g < c}]
         i = sum(1 for g in grid if g < c)
         hi = lo - math.log(float(case["thetas"][i + 1])) + math.log(float(case["thetas"][i]))
+        if abs(lo - hi) > 1e-6:
+            # which one-sided value of N the unspecified tie order of argsort produced (the Lean model, a stable
+            # sort, always gives the left-continuous one: skygrid_eq_kingman_left_continuous)
+            R.ck.bucket("probe/torch-tie-order/" + ("left-continuous" if close(v, lo, TOL_ORACLE, scale) else
+                                                    "right-continuous" if close(v, hi, TOL_ORACLE, scale) else "neither"))
         if not (close(v, lo, TOL_ORACLE, scale) or close(v, hi, TOL_ORACLE, scale)):
             R.violation("PiecewiseConstantCoalescentGrid.log_prob:tie-value",
                         f"coalescent time on a grid point: value {v!r} is neither {lo!r} nor {hi!r}", case)
